@@ -21,32 +21,44 @@ def exact_full : Prop :=
 
 /-- `exact_full` is false: e.g. a target that declared `redo-ifcreate f` is run again in the same run
 once `f` has been *built* in that run; likewise when a higher-priority .do candidate is itself a
-target built in the run, when a removed overridden file that a dirtiness check turned into a source
-with failure mark 0 (override flag kept) was re-created by hand (`start_self` leaves such a record
-alone for ever), and when a real file is named like the `//ALWAYS` pseudo file.  (A former fourth
-counterexample — an overridden file edited a second time, whose stamp was never refreshed — is
-repaired: `override_edited_again_is_recorded`, `Once.Ex.override_edited_again_once`.) -/
+target built in the run, and when a real file is named like the `//ALWAYS` pseudo file.  (Two former
+counterexamples are repaired: an overridden file edited a second time, whose stamp was never
+refreshed — `override_edited_again_is_recorded`, `Once.Ex.override_edited_again_once`; and a removed
+overridden file that a dirtiness check turned into a source with the override flag kept, re-created
+by hand, which `start_self` then left alone for ever — `vanished_override_is_forgotten`,
+`Once.Ex.vanished_override_recreated_once`.) -/
 theorem exact_full_false : ¬ exact_full := Once.ranNodup_false
 
-/-- **At most once per command, for every reachable history**: under the cleanliness conditions
+/-- **At most once per command, for every reachable history**: under the static cleanliness conditions
 `Once.Clean` (no .do candidate, `redo-ifcreate` object or `//ALWAYS` is itself a target; no file is
-named like `//ALWAYS`; every overridden file that exists carries no failure mark and is still recorded
-as generated or is in step with its record — it may have been edited again) and with the (repaired)
-out-of-band defect off, the scripts executed by one `redo-ifchange ts` from any world reached from the
-empty project by any history are pairwise different — however many dependents request a target, at
-any nesting depth, through the out-of-band path, with failures and `-k`.  Each condition of `Clean`
-is necessary (counterexamples `Once.Cex.*`); the run-id well-formedness comes for free
-(`Once.wf_reachable`). -/
+named like `//ALWAYS`) and with the (repaired) out-of-band defect off, the scripts executed by one
+`redo-ifchange ts` from any world reached from the empty project by any history are pairwise
+different — however many dependents request a target, at any nesting depth, through the out-of-band
+path, with failures and `-k`, whatever was overridden, removed or re-created by hand.  Each condition
+of `Clean` is necessary (counterexamples `Once.Cex.*`); the run-id well-formedness (`Once.wf_reachable`)
+and the condition on overridden records (`Once.ovOK_reachable`: in a reachable world an overridden
+record is always a generated one, `Once.og_reachable`) come for free. -/
 theorem at_most_once_per_command (d0 d : Defects) (hd : d.oobRebuildsDepsNotTarget = false)
     (n0 n : Nat) (rules : Nat → List Nat) (ops : List UserOp) (ts : List Nat) (kg : Bool)
     (hc : Once.Clean (Once.runOps d0 n0 ops (initWorld rules))) :
     Once.RanNodupFrom d n (Once.runOps d0 n0 ops (initWorld rules)) ts kg :=
   Once.ran_nodup_reachable d0 d hd n0 n rules ops ts kg hc
 
-/-- The same from any well-formed clean world. -/
+/-- The same from any well-formed clean world in which every overridden file that exists is still
+recorded as generated, or carries no failure mark and is in step with its record (`Once.OvOK`; necessary
+for hand-made worlds: `Once.Cex.ovOK_needed`). -/
 theorem at_most_once_of_wf (d : Defects) (hd : d.oobRebuildsDepsNotTarget = false) (n : Nat) (w : World)
-    (ts : List Nat) (kg : Bool) (hwf : Once.WF w) (hc : Once.Clean w) : Once.RanNodupFrom d n w ts kg :=
-  Once.ran_nodup_of_wf d hd n w ts kg hwf hc
+    (ts : List Nat) (kg : Bool) (hwf : Once.WF w) (hov : Once.OvOK w) (hc : Once.Clean w) :
+    Once.RanNodupFrom d n w ts kg :=
+  Once.ran_nodup_of_wf d hd n w ts kg hwf hov hc
+
+/-- In every reachable world an overridden record is a generated one whose recorded stamp is not that
+of a missing file. -/
+theorem override_implies_generated (d : Defects) (n : Nat) (rules : Nat → List Nat) (ops : List UserOp) (f : Nat)
+    (ho : ((Once.runOps d n ops (initWorld rules)).recs f).isOverride = true) :
+    ((Once.runOps d n ops (initWorld rules)).recs f).isGenerated = true ∧
+    ((Once.runOps d n ops (initWorld rules)).recs f).stamp ≠ some .missing :=
+  Once.og_reachable d n rules ops f ho
 
 /-- **An overridden file that was edited again gets its new stamp recorded** (the repair of the
 fourth counterexample to `exact_full`): for a generated, overridden, existing target and *any*
@@ -81,6 +93,35 @@ example : ((startSelf (engine {} 0) {} { runid := 5 } 1
       { initWorld (fun _ => []) with fs := fun x => if x = 1 then some { content := srcContent 8, ms := 9, rest := 0 } else none }).2.recs 1).stamp
     = some (.st 9 0) := by
   simp [startSelf, readStamp, detectOverride, existsF, setOverride, updateStamp, setChanged, setRec, ev, initWorld]
+
+/-- **A vanished target is forgotten altogether** (the repair of the fifth counterexample to
+`exact_full`): when the dirtiness check finds the file of a generated target missing although its
+record holds the stamp of an existing file (no failure mark, `changed ≤ mx`, not checked in this
+run), it rewrites the record as a source with failure mark 0 *and without the override flag*,
+whether the target had been overridden by hand or not.  So a file created there later is an
+ordinary source for `start_self`, which refreshes its record on the first visit. -/
+theorem vanished_override_is_forgotten (R n : Nat) (w : World) (c : List Nat) (f mx ch : Nat) (seen : List Nat)
+    (old : DStamp) (hs : f ∉ seen) (hg : (getRec w R f).isGenerated = true)
+    (hst : (getRec w R f).stamp = some old) (hne : old ≠ readStamp w f) (hmiss : readStamp w f = .missing)
+    (hf : (getRec w R f).failed = none) (hc : (getRec w R f).changed = some ch) (hle : ch ≤ mx)
+    (hck : isCheckedR (getRec w R f) R = false) :
+    ((isDirty false R (n + 1) w c f mx seen none).2.1.recs f).isOverride = false ∧
+    ((isDirty false R (n + 1) w c f mx seen none).2.1.recs f).isGenerated = false ∧
+    ((isDirty false R (n + 1) w c f mx seen none).2.1.recs f).failed = some 0 := by
+  have hgt : ¬ ch > mx := by omega
+  have hne' : ¬ old = DStamp.missing := by rw [← hmiss]; exact hne
+  refine ⟨?_, ?_, ?_⟩ <;>
+  · simp (config := { zeta := true, zetaHave := true }) only [isDirty, Option.getD_none, hs, hf, hc, hgt, hck, hst,
+      hne', hmiss, hg, if_true, if_false, Option.isSome_none, Bool.false_eq_true, ne_eq, not_false_eq_true, and_self]
+    simp [setRec]
+
+/-- Non-vacuity: an overridden generated target whose file is gone. -/
+example : ((isDirty false 5 1 { initWorld (fun _ => []) with recs := fun x => if x = 1 then
+      { row := 2, isGenerated := true, isOverride := true, changed := some 2, stamp := some (.st 3 0) } else {} }
+      [] 1 5 [] none).2.1.recs 1).isOverride = false :=
+  (vanished_override_is_forgotten 5 0 _ [] 1 5 2 [] (.st 3 0) (by simp) (by simp [getRec, alwaysId])
+    (by simp [getRec, alwaysId]) (by simp [readStamp, initWorld]) (by simp [readStamp, initWorld])
+    (by simp [getRec, alwaysId]) (by simp [getRec, alwaysId]) (by omega) (by simp [getRec, alwaysId, isCheckedR])).1
 
 /-- The memoised verdict: a file already verified in this run is reported clean without being
 examined again and without any write (so a shared dependency is not re-traversed and, having
